@@ -195,6 +195,47 @@ func (r *c12Run) listWalk(kind, project string, pageSize int32) {
 	r.col.Add("ev_list_pages", int64(pages))
 }
 
+// topicSubsWalk: ListTopicSubscriptions returns exactly the live subscriptions
+// attached to the live generation of the topic (a re-created topic inherits none).
+func (r *c12Run) topicSubsWalk(topic string, pageSize int32) {
+	e := r.e
+	var got []string
+	token := ""
+	pages := 0
+	for {
+		pages++
+		resp, err := e.Pub.ListTopicSubscriptions(e.Ctx, &pubsubpb.ListTopicSubscriptionsRequest{Topic: topic, PageSize: pageSize, PageToken: token})
+		tg, live := r.m.topics[topic]
+		_ = tg
+		if !live {
+			r.expect("list-topic-subscriptions-dead-topic", "ListTopicSubscriptions("+topic+") [not live]", err, codes.NotFound)
+			return
+		}
+		if err != nil {
+			r.v("list-error:topic-subscriptions", "ListTopicSubscriptions(%s) page size %d failed: %v", topic, pageSize, err)
+			return
+		}
+		got = append(got, resp.Subscriptions...)
+		if resp.NextPageToken == "" || pages > 200 {
+			break
+		}
+		token = resp.NextPageToken
+	}
+	var want []string
+	for n, s := range r.m.subs {
+		if s.topic == topic && s.tgen == r.m.topics[topic] {
+			want = append(want, n)
+		}
+	}
+	sort.Strings(got)
+	sort.Strings(want)
+	r.trace = append(r.trace, fmt.Sprintf("list-topic-subscriptions %s page=%d -> %d items", topic, pageSize, len(got)))
+	if strings.Join(got, "\n") != strings.Join(want, "\n") {
+		r.v("list:topic-subscriptions", "ListTopicSubscriptions(%s) with page size %d returned %v, the live subscriptions attached to the live topic are %v", topic, pageSize, got, want)
+	}
+	r.col.Add("ev_list_walks", 1)
+}
+
 func TestC12(t *testing.T) {
 	cfg := evd.Env()
 	col := evd.New("C12", cfg)
@@ -418,9 +459,15 @@ func TestC12(t *testing.T) {
 							run.expect("delete-dead-snapshot", "DeleteSnapshot("+xn+") [absent]", err, codes.NotFound)
 						}
 					}
-				default: // list walk
+				case a < 92: // list walk
 					kind := []string{"topics", "subscriptions", "snapshots"}[rr.Intn(3)]
 					run.listWalk(kind, projs[rr.Intn(len(projs))], []int32{1, 2, 3, 7, 100, 0, -1}[rr.Intn(7)])
+				default: // subscriptions of one topic
+					tn := pick("topics")
+					if rr.Intn(3) > 0 {
+						tn = liveTopic()
+					}
+					run.topicSubsWalk(tn, []int32{1, 2, 3, 100, 0, -1}[rr.Intn(6)])
 				}
 			}
 			// final: every kind, every project of the case, small and default pages
